@@ -489,6 +489,9 @@ def run_check(prop: Property, tier: str, seed: int) -> int:
 
 
 def run_replay(prop: Property, path: str) -> int:
+    if not os.path.exists(path):
+        print(f"replay file {path} does not exist (replays of a property are rewritten by every run of its check)")
+        return 2
     data = json.load(open(path))
     scratch = tempfile.mkdtemp(prefix=f"sfv-{prop.pid}-")
     ctx = Ctx(prop.pid, "quick", data.get("seed", 0), random.Random(0), scratch, time.time() + 600, mode="replay")
